@@ -137,6 +137,19 @@ CLAIMED["C06"] = (
     "DESIGN.md section 6, C06",
 )
 
+CLAIMED["C04"] = (
+    "Coq theorems for every arrangement: a clip evaluation is constructible iff annotations and predictions are of the same "
+    "clip, the match targets/sources are duplicate-free and are exactly the annotated / predicted sound events (so each is "
+    "mentioned exactly once, nothing foreign), every match has a source or a target, and every affinity/score lies in [0,1]; "
+    "project iff every annotated clip has a task; clip iff start <= end; unit interval bounds. Correspondence: every case is "
+    "pushed through constructor, model_validate(dict), model_validate_json and io.load of a hand-edited AOEF document and the "
+    "accept/reject outcome of all four must equal the model.",
+    "Trusted: Coq kernel/vm_compute; hand-written model of the validators; that pydantic runs the validators on each path is a "
+    "correspondence fact; Evaluation.score (unbounded alias, not anchored) is outside the check.",
+    "Rocq/Coq proof (boolean validators <-> declarative conditions) + four-path accept/reject correspondence",
+    "DESIGN.md section 6, C04",
+)
+
 NOT_YET = {}
 
 
